@@ -124,6 +124,60 @@ func c13_1(c *core.Ctx, p *core.Prog) {
 			"the scan loop is left only when every column was inspected",
 			"the dictionary scan can stop before every column was inspected (an exit inside the loop at "+early+"): each rebuild then widens one column only, so a batch in which several dictionaries outgrow their index at once needs more rebuilds than the retry cap allows (the producer panics \"Too many consecutive schema updates\"), and the remaining dictionaries are measured a build late")
 	}
+	// the scan is unconditional: every path from the built record to a non-nil return enters the scan loop
+	{
+		var header *ssa.BasicBlock
+		var body map[*ssa.BasicBlock]bool
+		for h, bd := range loopsOf(fn) {
+			if bd[scan.Block()] && (body == nil || len(bd) < len(body)) {
+				header, body = h, bd
+			}
+		}
+		skip := ""
+		// the one condition under which there is nothing to scan: the builder has no dictionary field at all
+		noDict := map[core.Edge]bool{}
+		for _, b := range fn.Blocks {
+			iff := core.IfOf(b)
+			if iff == nil {
+				continue
+			}
+			cmp, ok := iff.Cond.(*ssa.BinOp)
+			if !ok {
+				continue
+			}
+			k, isK := core.ConstInt(cmp.Y)
+			ln, isLen := cmp.X.(*ssa.Call)
+			if !isK || k != 0 || !isLen {
+				continue
+			}
+			if bi, ok := ln.Call.Value.(*ssa.Builtin); !ok || bi.Name() != "len" {
+				continue
+			}
+			mt, ok := ln.Call.Args[0].Type().Underlying().(*types.Map)
+			if !ok || core.TypeName(mt.Elem()) != "DictionaryField" {
+				continue
+			}
+			switch cmp.Op {
+			case token.GTR, token.NEQ:
+				noDict[core.Edge{From: b, To: b.Succs[1]}] = true
+			case token.EQL, token.LEQ:
+				noDict[core.Edge{From: b, To: b.Succs[0]}] = true
+			}
+		}
+		if header != nil {
+			for _, r := range core.Returns(fn) {
+				if core.IsNilConst(r.Results[0]) {
+					continue
+				}
+				if ok, _ := (core.PathQuery{Fn: fn, From: inner, To: r, CutEdges: noDict, Avoid: func(i ssa.Instruction) bool { return i.Block() == header }}).Exists(); ok {
+					skip = p.Pos(r.Pos())
+				}
+			}
+			c.Check(skip == "", "scan|unconditional", p.Pos(scan.Pos()), core.FuncName(fn),
+				"every path from the built record to a returned record runs the dictionary scan",
+				"a record can be returned (at "+skip+") on a path that skips the dictionary scan: whatever the condition is based on, the dictionaries of that record are not measured, so nothing stops them from outgrowing their index width and the configured limit")
+		}
+	}
 	// a non-nil record is returned only on the up-to-date arm of a test made after the scan
 	var msgs []string
 	nOK := 0
@@ -272,6 +326,47 @@ func c13_2(c *core.Ctx, p *core.Prog) {
 		}
 		c.Check(n >= want, key, p.Pos(iff.Cond.Pos()), core.FuncName(scan), fmt.Sprintf("%s arm recurses (%d call(s))", kind, n),
 			fmt.Sprintf("the %s arm of the dictionary scan recurses %d time(s), expected at least %d: some children are never measured", kind, n, want))
+		// children visited in a loop: field i is paired with child i, for every i
+		if kind == "StructType" || kind == "UnionType" {
+			core.EachInstr(scan, func(i ssa.Instruction) {
+				cl, ok := i.(*ssa.Call)
+				if !ok || cl.Call.StaticCallee() != scan || !core.GuardedBy(iff, true, cl) {
+					return
+				}
+				fAcc, ok := core.ElemAccessOf(firstElem(cl.Call.Args[1]))
+				if !ok || fAcc.Phi == nil {
+					c.Undecided(key+"|pairing", p.Pos(cl.Pos()), core.FuncName(scan), "the child field handed to the recursive scan is not an element of a field list indexed by a loop variable")
+					return
+				}
+				var child *ssa.Call
+				core.BackSlice(cl.Call.Args[2], func(v ssa.Value) bool {
+					if c2, ok := v.(*ssa.Call); ok && child == nil && len(core.CallArgs(c2)) >= 1 {
+						if f := core.CalleeObj(c2); f != nil && f.Name() == "Field" {
+							child = c2
+							return false
+						}
+					}
+					return child == nil
+				})
+				if child == nil {
+					c.Undecided(key+"|pairing", p.Pos(cl.Pos()), core.FuncName(scan), "the child column handed to the recursive scan is not taken with Field(i)")
+					return
+				}
+				args := core.CallArgs(child)
+				idx := core.StripConv(args[len(args)-1])
+				same := fAcc.Off == 0 && idx == ssa.Value(fAcc.Phi)
+				msg := fmt.Sprintf("the %s arm pairs child field i with child column i", kind)
+				bad := fmt.Sprintf("the %s arm pairs child field i with the child column at a different position (%s): the dictionary of a child is measured against the wrong column or not at all", kind, idx.String())
+				if same {
+					if ind, ok := core.InductionOf(fAcc.Phi); ok {
+						if lo, hi, ok := ind.Coverage(fAcc); !ok || lo > 0 || hi < 0 {
+							same, bad = false, fmt.Sprintf("the %s arm does not visit every child", kind)
+						}
+					}
+				}
+				c.Check(same, key+"|pairing", p.Pos(cl.Pos()), core.FuncName(scan), msg, bad)
+			})
+		}
 	}
 	// leaf: cardinality = length of the dictionary
 	var setCard *ssa.Call
